@@ -92,6 +92,7 @@ func main() {
 	}
 	os.MkdirAll(*out, 0o755)
 	selfCheckCodecs()
+	selfCheckH264()
 
 	count := *n
 	if count == 0 {
@@ -348,6 +349,12 @@ func main() {
 				dist["nontrivial-"+vk]++
 			}
 		}
+		for k, v := range co.h.Stats {
+			dist["gen:"+k] += v
+		}
+		if co.h.H264Reorder {
+			dist["h264:slice-headers-and-poc-type-0/"+variantName(co.h.Variant)]++
+		}
 		if co.h.Disk {
 			dist["storage:disk"]++
 		} else {
@@ -417,14 +424,16 @@ func main() {
 		"evaluations":         len(outs),
 		"distinct_nontrivial": distinct,
 		"rule": "configurations and write histories from splitmix64(seed, index): variant x track set (0-1 video: H264 / H265 / VP9 / AV1 on the fMP4 variants, H264 on MPEG-TS plus rejected MPEG-TS configurations with the other three; 0-3 AAC/Opus audio, any order) x SegmentCount x SegmentMinDuration x PartMinDuration x SegmentMaxSize x RAM/disk; " +
-			"30-230 writes (long histories: 1500-3000) with jitter, equal DTS, mid-GOP and negative starts, multi-AU audio, parameter changes (H264/H265 on any unit, VP9/AV1 on key frames / sequence headers), H265 picture reordering (pts - dts of 0-4 frame ticks), cross-track skew; distinct by SHA-256 of the history; " +
+			"30-230 writes (long histories: 1500-3000) with jitter, equal DTS, mid-GOP and negative starts, multi-AU audio, parameter changes (H264/H265 on any unit, VP9/AV1 on key frames / sequence headers), H265 picture reordering (pts - dts of 0-4 frame ticks), " +
+			"H264 picture reordering (two in three H264 histories: real slice headers, pic_order_cnt_type 0 parameter sets with 0-3 B pictures between anchors, POC wrap, frame / field-style POC numbering; the abstract dts is what mediacommon's h264.DTSExtractor returns for the concrete units), " +
+			"AV1 sequence headers with and without an explicit colour description, boundary aiming (one history in three: random-access units of the leading track exactly at / one tick before / one tick after the tick at which SegmentMinDuration is reached, Low-Latency also at the frozen part duration, segment starts on arbitrary ticks), cross-track skew; distinct by SHA-256 of the history; " +
 			"non-trivial = at least 2 segments published and at least 3 rotations; " +
 			"C18 only: in addition evaluations/5 single-stream MPEG-TS / fMP4 histories in which each storage NewFile call fails with probability 1/6 (retention oracle only, outside the model; counted under storage-fault-histories, not under evaluations)",
-		"samples":         samples,
-		"distribution":    dist,
-		"oracle_failures": fails,
-		"mismatches":      mms,
-		"model_ran":       modelRan,
+		"samples":                       samples,
+		"distribution":                  dist,
+		"oracle_failures":               fails,
+		"mismatches":                    mms,
+		"model_ran":                     modelRan,
 		"traces_validated_against_impl": traces,
 	}
 	jj, _ := json.MarshalIndent(res, "", " ")
